@@ -49,8 +49,9 @@ func hNormalizeFile(pf *ast.File, path string, want map[string]bool) (*ast.File,
 			continue
 		}
 		a := hSwitchToIf(fd)
+		l := hUnlabelLoops(fd)
 		b := hInlineLiterals(fd)
-		if a || b {
+		if a || b || l {
 			changed[hDeclSpec(fd)] = true
 		}
 	}
@@ -409,6 +410,14 @@ func hInlinable(fd *ast.FuncDecl, def *hLitDef, defStmt *ast.AssignStmt) bool {
 				own[id.Obj] = true
 			}
 		}
+		if as, isAs := n.(*ast.AssignStmt); isAs && as.Tok == token.DEFINE {
+			// a variable introduced by the switch rewrite (switch_tag := ...) has no declaration node
+			for _, l := range as.Lhs {
+				if id, isId := l.(*ast.Ident); isId && id.Obj != nil && id.Obj.Decl == nil {
+					own[id.Obj] = true
+				}
+			}
+		}
 		return true
 	})
 	// which objects each name denotes in the enclosing function (selectors and keys have no object)
@@ -542,4 +551,79 @@ func hClone(v reflect.Value, ren map[*ast.Object]string) reflect.Value {
 		return r
 	}
 	return v
+}
+
+
+// ---------------------------------------------------------------- labelled loops
+
+// hUnlabelLoops: `L: for ... { ... break L ... continue L ... }` where every `break L` / `continue L`
+// has the labelled loop as its INNERMOST enclosing loop and is not inside a switch or select (the
+// switches have been turned into if chains before; one that could not be is left alone, and with it
+// the label): there `break L` is `break` and `continue L` is `continue`.  The label is dropped.
+// Any other use of a label is left as it is (and is then lost by the translation proper).
+func hUnlabelLoops(fd *ast.FuncDecl) bool {
+	changed := false
+	try := func(list []ast.Stmt) {
+		for i, s := range list {
+			ls, ok := s.(*ast.LabeledStmt)
+			if !ok {
+				continue
+			}
+			var body *ast.BlockStmt
+			switch v := ls.Stmt.(type) {
+			case *ast.ForStmt:
+				body = v.Body
+			case *ast.RangeStmt:
+				body = v.Body
+			default:
+				continue
+			}
+			good := true
+			var uses []*ast.BranchStmt
+			var walk func(n ast.Node, nested bool)
+			walk = func(n ast.Node, nested bool) {
+				ast.Inspect(n, func(x ast.Node) bool {
+					if x == nil || !good {
+						return false
+					}
+					switch v := x.(type) {
+					case *ast.FuncLit:
+						return false
+					case *ast.ForStmt, *ast.RangeStmt, *ast.SwitchStmt, *ast.TypeSwitchStmt, *ast.SelectStmt:
+						if x != n {
+							walk(x, true)
+							return false
+						}
+					case *ast.BranchStmt:
+						if v.Label != nil && v.Label.Name == ls.Label.Name {
+							if nested || (v.Tok != token.BREAK && v.Tok != token.CONTINUE) {
+								good = false
+							}
+							uses = append(uses, v)
+						}
+					}
+					return true
+				})
+			}
+			walk(body, false)
+			if !good {
+				continue
+			}
+			for _, u := range uses {
+				u.Label = nil
+			}
+			list[i] = ls.Stmt
+			changed = true
+		}
+	}
+	ast.Inspect(fd.Body, func(n ast.Node) bool {
+		switch v := n.(type) {
+		case *ast.BlockStmt:
+			try(v.List)
+		case *ast.CaseClause:
+			try(v.Body)
+		}
+		return true
+	})
+	return changed
 }
